@@ -106,11 +106,11 @@ Definition reviewed : list (site * string) := [
   (("func.go", "deleteEmpty", "range-map", "v"),
    "every entry is visited and treated independently of the others: order-independent");
   (("func.go", "deleteEmpty", "set-index", "v"),
-   "v[k] = deleteEmpty(w) / v[j] = deleteEmpty(w) / v[i] = nil are executed on EVERY container reachable from the result, also on containers the reduction never copied (input, variables, code constants): same-value writes into shared memory — D6, theorem C05_delete_empty_writes_refuted (value level: C05_delete_empty_values_unchanged)");
+   "v[k] = deleteEmpty(w, a) / v[j] = deleteEmpty(w, a) / v[i] = nil are reached only after a.allocated(v): the container was created by this reduction (model: delete_empty true, theorem C05_writes_fresh_delpaths; before the fix D6 they were executed on every reachable container)");
   (("func.go", "deleteEmpty", "set-index", "v"),
-   "v[k] = deleteEmpty(w) / v[j] = deleteEmpty(w) / v[i] = nil are executed on EVERY container reachable from the result, also on containers the reduction never copied (input, variables, code constants): same-value writes into shared memory — D6, theorem C05_delete_empty_writes_refuted (value level: C05_delete_empty_values_unchanged)");
+   "v[k] = deleteEmpty(w, a) / v[j] = deleteEmpty(w, a) / v[i] = nil are reached only after a.allocated(v): the container was created by this reduction (model: delete_empty true, theorem C05_writes_fresh_delpaths; before the fix D6 they were executed on every reachable container)");
   (("func.go", "deleteEmpty", "set-index", "v"),
-   "v[k] = deleteEmpty(w) / v[j] = deleteEmpty(w) / v[i] = nil are executed on EVERY container reachable from the result, also on containers the reduction never copied (input, variables, code constants): same-value writes into shared memory — D6, theorem C05_delete_empty_writes_refuted (value level: C05_delete_empty_values_unchanged)");
+   "v[k] = deleteEmpty(w, a) / v[j] = deleteEmpty(w, a) / v[i] = nil are reached only after a.allocated(v): the container was created by this reduction (model: delete_empty true, theorem C05_writes_fresh_delpaths; before the fix D6 they were executed on every reachable container)");
   (("func.go", "explode", "set-index", "xs"),
    "xs is fresh");
   (("func.go", "flatten", "append", "xs"),
